@@ -396,6 +396,60 @@ func ruleDetectAllPages(c *eng.Ctx) {
 					fromDetect = true
 				}
 			}
+			if !fromDetect {
+				// the detection result handed on in a field of a small job struct by an earlier stage: every store
+				// to that field in the package takes the result of the detection call
+				for v := range eng.Slice(recv, nil) {
+					var st *types.Struct
+					idx := -1
+					switch x := v.(type) {
+					case *ssa.Field:
+						st, _ = x.X.Type().Underlying().(*types.Struct)
+						idx = x.Field
+					case *ssa.FieldAddr:
+						if pt, ok := x.X.Type().Underlying().(*types.Pointer); ok {
+							st, _ = pt.Elem().Underlying().(*types.Struct)
+							idx = x.Field
+						}
+					}
+					if st == nil || idx < 0 {
+						continue
+					}
+					nSt, all := 0, true
+					for _, g := range c.P.ModuleFuncs() {
+						if g.Pkg != fn.Pkg || g.Blocks == nil {
+							continue
+						}
+						eng.Instrs(g, true, func(in ssa.Instruction) {
+							s2, ok := in.(*ssa.Store)
+							if !ok {
+								return
+							}
+							fa2, ok := s2.Addr.(*ssa.FieldAddr)
+							if !ok || fa2.Field != idx {
+								return
+							}
+							pt, ok := fa2.X.Type().Underlying().(*types.Pointer)
+							if !ok || !types.Identical(pt.Elem().Underlying(), st) {
+								return
+							}
+							nSt++
+							from := false
+							for w := range eng.Slice(s2.Val, nil) {
+								if call, ok := w.(*ssa.Call); ok && eng.StaticCallee(call) == detect {
+									from = true
+								}
+							}
+							if !from && !eng.IsNilConst(s2.Val) {
+								all = false
+							}
+						})
+					}
+					if nSt > 0 && all {
+						fromDetect = true
+					}
+				}
+			}
 			c.Check(fromDetect, R, key, ci.Pos(), "filter is the detection result of this call", "FilterFragments is applied to a result that does not come from this function's detectHeaderFooter call")
 		}
 	}
